@@ -192,11 +192,18 @@ def item(draw, names, rich=True, keys=None, want_zid=None):
                 lines.append({"ind": "      + ", "words": draw(words(names, 1, 4, first_plain=True, keys=keys))})
             else:
                 lines.append({"ind": "    " if level else "  ", "words": draw(words(names, 1, 4, first_plain=True, keys=keys))})
-        # bullet-style properties: L1 bullets at the very end of the item (value = rest of that bullet)
-        for _ in range(draw(st.sampled_from([0, 0, 0, 1, 2]))):
+        # bullet-style properties at the very end of the item (value = rest of that bullet).  All bullet
+        # properties of one note sit on the same bullet level: L1, or inside a "drawer" on L2 / L3.
+        nbp = draw(st.sampled_from([0, 0, 0, 1, 2]))
+        blevel = draw(st.sampled_from([1, 1, 1, 2, 3])) if nbp else 1
+        if blevel >= 2:
+            lines.append({"ind": "  * ", "words": [W(draw(st.sampled_from(["PROPERTY:", "drawer", "META:"])))]})
+        if blevel == 3:
+            lines.append({"ind": "    - ", "words": [W(draw(st.sampled_from(["sub:", "more", "list:"])))]})
+        for _ in range(nbp):
             key = names.next("bk")
             vs = [draw(st.sampled_from(PLAIN + ["12", "o", "x", "2024-01-02"])) for _ in range(draw(st.integers(1, 4)))]
-            lines.append({"ind": "  * ", "bprop": [key, vs]})
+            lines.append({"ind": {1: "  * ", 2: "    - ", 3: "      + "}[blevel], "bprop": [key, vs]})
     return {"kind": kind, "prio": prio, "modify": modify, "zid": zid, "longdate": longdate, "gap": gap,
             "lines": lines}
 
